@@ -12,7 +12,7 @@ use std::ffi::c_ulong;
 pub const INFO: CheckInfo = CheckInfo {
     prop: "C15",
     level: "model_checking",
-    rule: "invariant monitor on EVERY call of every execution of the shared (configuration x input x schedule) families (C API): next_in/next_out advance by exactly the bytes consumed/produced, avail_in/avail_out decrease by the same amounts without underflow, total_in/total_out equal the sums over all calls (+ preset-dictionary bytes for C-API deflate), Z_BUF_ERROR only when the call neither consumed nor produced (or Finish could not complete); each stream is decoded under three schedules with 0..3 trailing garbage bytes, where the consumed count must be exactly the stream length; the same chunkings through the Rust Deflate/Inflate wrappers (totals == sums of pointer differences); one-shot helpers compress/compress2/uncompress/uncompress2/compress_slice/decompress_slice report lengths equal to those totals, uncompress2 the compressed length excluding trailing bytes; explicit enumeration of inflate programs with inflateSync/reset/prime to depth 4 with totals compared with the sums after every call. Family uncompress-any-stream: uncompress / uncompress2 on every truncation, a bit-flip lattice, FDICT, wrong-wrapper and trailing-byte variants of six data sets into six destination sizes: (status, destLen, sourceLen, bytes) equal zlib-ng's and the totals of the equivalent single streaming call. Every third schedule runs (compresses and decodes) with total_in / total_out started at 2^32 - 100, so that every counter crosses 2^32 under the per-call monitor. distinct_nontrivial = distinct (compressed stream, per-call deltas) outcomes.",
+    rule: "invariant monitor on EVERY call of every execution of the shared (configuration x input x schedule) families (C API): next_in/next_out advance by exactly the bytes consumed/produced, avail_in/avail_out decrease by the same amounts without underflow, total_in/total_out equal the sums over all calls (+ preset-dictionary bytes for C-API deflate), Z_BUF_ERROR only when the call neither consumed nor produced (or Finish could not complete); each stream is decoded under three schedules with 0..3 trailing garbage bytes, where the consumed count must be exactly the stream length; the same chunkings through the Rust Deflate/Inflate wrappers (totals == sums of pointer differences); one-shot helpers compress/compress2/uncompress/uncompress2/compress_slice/decompress_slice report lengths equal to those totals, uncompress2 the compressed length excluding trailing bytes; explicit enumeration of inflate programs with inflateSync/reset/prime to depth 4 with totals compared with the sums after every call. Family uncompress-any-stream: uncompress / uncompress2 on every truncation, a bit-flip lattice, FDICT, wrong-wrapper and trailing-byte variants of six data sets into six destination sizes: (status, destLen, sourceLen, bytes) equal zlib-ng's and the totals of the equivalent single streaming call. Every third schedule runs (compresses and decodes) with total_in / total_out started at 2^32 - 100, so that every counter crosses 2^32 under the per-call monitor. distinct_nontrivial = distinct (compressed stream, per-call deltas) outcomes. Family huge-slices: Rust API with a slice of 2^32 + 1000 bytes as output of Deflate::compress, output and input of Inflate::decompress.",
     assumptions: &["histories outside the enumerated families are not covered", "running totals after Z_NEED_DICT are not judged (zlib is self-inconsistent there, see C16)"],
     bound_quick: "tiny + shape families (stride 5), 4 trailing-garbage lengths, Rust wrappers on 6 chunk sizes, sync programs depth 4",
     bound_thorough: "families stride 1, sync programs depth 5",
@@ -298,6 +298,7 @@ pub fn run(ctx: &mut Ctx) {
     });
     sync_programs(ctx);
     uncompress_any(ctx);
+    huge_slices(ctx);
 }
 
 /// uncompress / uncompress2 on streams that are NOT a complete valid zlib stream: every truncation, bit flips, a preset
@@ -391,5 +392,70 @@ fn uncompress_any(ctx: &mut Ctx) {
                 );
             }
         }
+    }
+}
+
+/// The Rust wrappers take slices, the C stream counts in 32 bits: slices longer than u32::MAX (a 4 GiB + 1000 byte
+/// anonymous mapping, never touched beyond what the calls use) as output of Deflate::compress, as output of
+/// Inflate::decompress and as input of Inflate::decompress (a stream followed by zero bytes): totals equal what was
+/// really consumed and produced.
+fn huge_slices(ctx: &mut Ctx) {
+    for which in 0..3usize {
+        ctx.case(
+            "huge-slices",
+            || format!("Rust API, slice of 2^32 + 1000 bytes as {}", ["output of Deflate::compress(2000 bytes, Finish)", "output of Inflate::decompress", "input of Inflate::decompress (stream + zero bytes)"][which]),
+            |c| unsafe {
+                let n: usize = (1usize << 32) + 1000;
+                let p = libc::mmap(std::ptr::null_mut(), n, libc::PROT_READ | libc::PROT_WRITE, libc::MAP_PRIVATE | libc::MAP_ANONYMOUS | libc::MAP_NORESERVE, -1, 0);
+                if p == libc::MAP_FAILED {
+                    return Err("mmap of 4 GiB failed".into());
+                }
+                let big = std::slice::from_raw_parts_mut(p as *mut u8, n);
+                let input = text(8, 2000);
+                // reference run with ordinary buffers
+                let mut small = vec![0u8; 8192];
+                let mut d0 = zlib_rs::Deflate::new(6, true, 15);
+                let r0 = d0.compress(&input, &mut small, zlib_rs::DeflateFlush::Finish);
+                let zlen = d0.total_out() as usize;
+                let res = (|| -> Result<(), String> {
+                    if r0 != Ok(zlib_rs::Status::StreamEnd) {
+                        return Err(format!("reference compress: {r0:?}"));
+                    }
+                    c.exec();
+                    match which {
+                        0 => {
+                            let mut d = zlib_rs::Deflate::new(6, true, 15);
+                            let r = d.compress(&input, big, zlib_rs::DeflateFlush::Finish);
+                            if r != Ok(zlib_rs::Status::StreamEnd) || d.total_in() != 2000 || d.total_out() as usize != zlen || big[..zlen] != small[..zlen] {
+                                return Err(format!("Deflate::compress into the huge slice: {r:?}, total_in {} (2000 given), total_out {} ({zlen} bytes written by the reference run), bytes equal: {}", d.total_in(), d.total_out(), big[..zlen.min(8192)] == small[..zlen.min(8192)]));
+                            }
+                        }
+                        1 => {
+                            let mut i = zlib_rs::Inflate::new(true, 15);
+                            let r = i.decompress(&small[..zlen], big, zlib_rs::InflateFlush::Finish);
+                            if r != Ok(zlib_rs::Status::StreamEnd) || i.total_in() as usize != zlen || i.total_out() != 2000 || big[..2000] != input[..] {
+                                return Err(format!("Inflate::decompress into the huge slice: {r:?}, total_in {} (stream {zlen}), total_out {} (data 2000)", i.total_in(), i.total_out()));
+                            }
+                        }
+                        _ => {
+                            big[..zlen].copy_from_slice(&small[..zlen]);
+                            let mut out = vec![0u8; 4096];
+                            let mut i = zlib_rs::Inflate::new(true, 15);
+                            let r = i.decompress(big, &mut out, zlib_rs::InflateFlush::NoFlush);
+                            if r != Ok(zlib_rs::Status::StreamEnd) || i.total_in() as usize != zlen || i.total_out() != 2000 || out[..2000] != input[..] {
+                                return Err(format!("Inflate::decompress from the huge slice: {r:?}, total_in {} (stream {zlen}), total_out {} (data 2000)", i.total_in(), i.total_out()));
+                            }
+                        }
+                    }
+                    Ok(())
+                })();
+                libc::munmap(p, n);
+                res?;
+                c.outcome(which as u64);
+                c.nontrivial();
+                c.validated();
+                Ok(())
+            },
+        );
     }
 }
